@@ -64,6 +64,10 @@ pub trait Life {
     fn rng_pos(&self) -> u64 {
         0
     }
+    /// a cheap read that forces lazy work (T-Digest compaction); allocation free result
+    fn touch(&self) -> u64 {
+        0
+    }
 }
 
 pub fn digest_value(a: u64) -> f64 {
@@ -185,6 +189,9 @@ impl Life for DigLife {
     }
     fn is_empty(&self) -> Option<bool> {
         Some(self.0.is_empty())
+    }
+    fn touch(&self) -> u64 {
+        self.0.count().to_bits()
     }
 }
 
